@@ -1953,7 +1953,7 @@ class Tensor:
 
         with open(file, 'r') as stream:
             try:
-                y_file = yaml.safe_load(stream)
+                y_file = yaml.full_load(stream)
             except yaml.YAMLError as exc:
                 print(exc)
                 exit(1)
